@@ -557,6 +557,26 @@ func DefaultMarkdownOptions() MarkdownOptions {
 	}
 }
 
+// AdjustHeadingLevel applies HeadingLevelOffset and MaxHeadingLevel to a source
+// heading level and keeps the result inside the Markdown heading range 1..6.
+// A MaxHeadingLevel of 0 means no configured maximum.
+func (o MarkdownOptions) AdjustHeadingLevel(level int) int {
+	if level < 1 {
+		level = 1
+	}
+	level += o.HeadingLevelOffset
+	if level < 1 {
+		level = 1
+	}
+	if o.MaxHeadingLevel > 0 && level > o.MaxHeadingLevel {
+		level = o.MaxHeadingLevel
+	}
+	if level > 6 {
+		level = 6
+	}
+	return level
+}
+
 // RAGOptimizedMarkdownOptions returns options optimized for RAG ingestion
 func RAGOptimizedMarkdownOptions() MarkdownOptions {
 	return MarkdownOptions{
